@@ -221,7 +221,12 @@ class ExpectedError(Exception):
     """The program must fail with TemplateSyntaxError."""
 
 
-WILD = "\x00"  # a value the model deliberately does not predict
+WILD = "\x00"  # a value the model deliberately does not predict (matches [A-Za-z0-9]*)
+WILD2 = "\x02"  # an unpredicted printed object (matches any run of characters except [ ] <)
+
+
+def _escape(s):
+    return s.replace("&", "&amp;").replace("<", "&lt;").replace(">", "&gt;").replace('"', "&quot;").replace("'", "&#x27;")
 
 
 class Layer:
@@ -260,11 +265,23 @@ class FillClosure:
 
 
 class SlotRefModel:
-    def __init__(self, interp, slot, env, owner, prov, parent):
+    def __init__(self, interp, slot, env, owner, prov, parent, alias_names=()):
         self.args = (interp, slot, env, owner, prov, parent)
+        self.alias_names = list(alias_names)
 
     def render(self):
         interp, slot, env, owner, prov, parent = self.args
+        if interp.mode == "django" and self.alias_names:
+            # whether the slot's default content, rendered from inside the fill, sees the fill's aliases
+            # is not stated anywhere
+            env = env + [Layer({k: WILD2 for k in self.alias_names}, "aliaswild")]
+        if interp.mode == "isolated" and self.alias_names:
+            # same question for sibling fills of the same instance that get rendered inside that default content
+            interp.leaks.append((owner, self.alias_names))
+            try:
+                return interp.nodes(slot["c"], env, owner, prov, parent)
+            finally:
+                interp.leaks.pop()
         return interp.nodes(slot["c"], env, owner, prov, parent)
 
 
@@ -283,6 +300,7 @@ class Interp:
         self.probes = {}  # probe id -> list of values in output order
         self.steps = 0
         self.flags = set()
+        self.leaks = []  # (instance, alias names) of default-alias renderings in progress (isolated mode)
         self.n_filled = 0  # slots rendered from a provided fill
         self.n_default = 0  # slots rendered from their own default content
         self.n_nested_slot = 0  # slots evaluated inside default content or inside fill content
@@ -308,8 +326,8 @@ class Interp:
                 val = p in val.names
             elif isinstance(val, CompVars) and p == "is_filled":
                 val = val.is_filled
-            elif val is WILD:
-                return WILD
+            elif val is WILD or val is WILD2:
+                return val
             else:
                 return ""
         return val
@@ -321,7 +339,7 @@ class Interp:
 
     @staticmethod
     def truthy(v):
-        if v is WILD:
+        if v is WILD or v is WILD2:
             raise WildCondition()
         return bool(v)
 
@@ -330,14 +348,16 @@ class Interp:
             return v.render()
         if isinstance(v, tuple) and v and v[0] == "ID":
             return [v]
-        if v is WILD:
-            return [WILD]
+        if v is WILD or v is WILD2:
+            return [WILD2]  # an unpredicted value may be any object (e.g. a slot-data dict)
         if v is True:
             return ["True"]
         if v is False:
             return ["False"]
         if isinstance(v, dict):
-            return [WILD]  # printing a dict: representation not modelled
+            if all(isinstance(x, str) and x is not WILD and x is not WILD2 for x in v.values()):
+                return [_escape(str(v))]  # {{ dict }}: Python repr, autoescaped
+            return [WILD2]
         if isinstance(v, (IsFilled, CompVars)):
             return [WILD]
         return [str(v)]
@@ -393,10 +413,8 @@ class Interp:
             return self.nodes(n["a"] if c else n["b"], env, owner, prov, parent)
         if t == "for":
             seq = self.expr(env, n["l"])
-            if seq is WILD:
-                raise WildCondition()
-            if not isinstance(seq, str):
-                seq = ""
+            if seq is WILD or seq is WILD2 or not isinstance(seq, str):
+                raise WildCondition()  # iterating a dict / slot reference is outside the modelled domain
             out = []
             for i, ch in enumerate(seq):
                 layer = Layer({n["v"]: ch, "forloop": {"counter": str(i + 1), "counter0": str(i), "first": i == 0, "last": i == len(seq) - 1}}, "for")
@@ -436,19 +454,22 @@ class Interp:
                 self.collect_fills(n["a"] if c else n["b"], env, between, acc, owner)
             elif t == "for":
                 seq = self.expr(env, n["l"])
-                if seq is WILD:
+                if seq is WILD or seq is WILD2 or not isinstance(seq, str):
                     raise WildCondition()
-                if not isinstance(seq, str):
-                    seq = ""
                 for i, ch in enumerate(seq):
                     b = {n["v"]: ch, "forloop": {"counter": str(i + 1), "counter0": str(i), "first": i == 0, "last": i == len(seq) - 1}}
                     layer = Layer(b, "for")
                     b2 = dict(between)
+                    for k_ in b:
+                        if k_ in b2 and k_ != "forloop":
+                            b[k_] = WILD  # same name bound twice between tag and fill: winner not specified
                     b2.update(b)
-                    self.collect_fills(n["c"], env + [layer], b2, acc, owner)
+                    self.collect_fills(n["c"], env + [Layer(dict(b), "for")], b2, acc, owner)
             elif t == "with":
                 b = {n["n"]: self.expr(env, n["e"])}
                 b2 = dict(between)
+                if n["n"] in b2:
+                    b[n["n"]] = WILD
                 b2.update(b)
                 self.collect_fills(n["c"], env + [Layer(b, "with")], b2, acc, owner)
             elif t == "text":
@@ -513,11 +534,20 @@ class Interp:
         isolated = self.mode == "isolated" or n.get("only")
         if isolated:
             tenv = [env[0]]
-            for layer in reversed(env):
-                if layer.kind == "for" or (layer.kind in ("between", "alias") and "forloop" in layer.vars):
-                    # documented-in-code forwarding of the innermost loop layer; other names of that
-                    # layer are not predicted
-                    fw = {k: (v if layer.kind == "for" else WILD) for k, v in layer.vars.items()}
+            def loopish(l_):
+                return l_.kind in ("for", "forwarded") or "forloop" in l_.vars
+
+            for i_ in range(len(env) - 1, -1, -1):
+                layer = env[i_]
+                if layer.kind in ("for", "forwarded"):
+                    # documented-in-code forwarding of the innermost loop layer (transitively through
+                    # nested components)
+                    tenv.append(Layer(dict(layer.vars), "forwarded"))
+                    break
+                if layer.kind == "between" and loopish(layer):
+                    # the bindings captured around a fill (inside a loop in the component body) form one
+                    # layer, which is then forwarded as "the loop layer": its other names are not predicted
+                    fw = {k: (v if k == "forloop" else WILD) for k, v in layer.vars.items()}
                     tenv.append(Layer(fw, "forwarded"))
                     break
         else:
@@ -549,10 +579,18 @@ class Interp:
             if f.data_var:
                 alias[f.data_var] = data
             if f.dflt_var:
-                alias[f.dflt_var] = SlotRefModel(self, n, env, owner, prov, parent)
+                alias[f.dflt_var] = SlotRefModel(self, n, env, owner, prov, parent, [a for a in (f.data_var, f.dflt_var) if a] + [k_ for k_ in f.between if k_ != "forloop"])
             between = Layer(dict(f.between), "between")
             if self.mode == "isolated":
+                for k_ in list(between.vars):
+                    if k_ != "forloop" and any(k_ in l_.vars for l_ in f.env_at_tag):
+                        # property is silent on who wins between a binding around the fill and a name
+                        # already visible at the tag
+                        between.vars[k_] = WILD
                 fenv = list(f.env_at_tag) + [between]
+                leaked = [k_ for (li_, names_) in self.leaks if li_ is inst for k_ in names_]
+                if leaked:
+                    fenv.append(Layer({k_: WILD2 for k_ in leaked}, "aliaswild"))
             else:
                 fenv = list(env)
                 idx = None
@@ -560,7 +598,10 @@ class Interp:
                     if layer.kind == "data" and layer.inst is inst:
                         idx = i
                 if idx is None:
+                    # the receiving instance's own layer is not part of this context (an `only` component in
+                    # between cut it off): where the bindings around the fill rank is not specified
                     idx = len(fenv)
+                    between = Layer({k_: (v_ if k_ == "forloop" else WILD) for k_, v_ in between.vars.items()}, "between")
                 fenv.insert(idx, between)
                 if inst.tag_only:
                     # django mode + `only`: whether fill content still sees the variables of the tag
@@ -638,7 +679,7 @@ def matches(expected, real):
     WILD stands for any run of [A-Za-z0-9]*; \x01N\x01 for a 6-character render id. Matching is an NFA
     simulation (no backtracking), so it is linear in practice.
     """
-    if WILD not in expected and "\x01" not in expected:
+    if WILD not in expected and "\x01" not in expected and WILD2 not in expected:
         return expected == real
     # tokenise the pattern: ("c", ch) | ("*",) | ("id",)
     toks = []
@@ -648,6 +689,9 @@ def matches(expected, real):
         if ch == WILD:
             if not toks or toks[-1][0] != "*":
                 toks.append(("*",))
+            i += 1
+        elif ch == WILD2:
+            toks.append(("**",))
             i += 1
         elif ch == "\x01":
             j = expected.index("\x01", i + 1)
@@ -661,7 +705,7 @@ def matches(expected, real):
     def closure(states):
         out = set()
         for st_ in states:
-            while st_ < n and toks[st_][0] == "*":
+            while st_ < n and toks[st_][0] in ("*", "**"):
                 out.add(st_)
                 st_ += 1
             out.add(st_)
@@ -681,6 +725,9 @@ def matches(expected, real):
             elif t[0] == "a":
                 if alnum:
                     nxt.add(st_ + 1)
+            elif t[0] == "**":
+                if ch not in "[]<":
+                    nxt.add(st_)
             elif alnum:  # star
                 nxt.add(st_)
         if not nxt:
